@@ -4,7 +4,7 @@
    samples in another order and under translation, scaling by c^2 under scaling of all features by c,
    and equivariance under any linear map of the features (rotations in particular). *)
 From Coq Require Import List Arith Bool ZArith Reals Lra Lia Permutation.
-From ML Require Import Ops Vec NP VecR MatR LinAlg.
+From ML Require Import Ops Vec NP VecR MatR LinAlg PSDConv.
 Import ListNotations.
 Open Scope R_scope.
 
@@ -298,4 +298,12 @@ Proof.
   apply (transp_fuel_adjoint d C x (mvmulR (transp_fuelR d C) x) Hne HC).
   - unfold wfv. rewrite mvmul_length. apply transp_fuel_length; auto.
   - unfold wfv in Hx. rsimp. congruence.
+Qed.
+
+Theorem cfm_chol_form d (C M : Rm) (x : Rv) : C <> [] -> length C = d -> Forall (wfvR d) C -> wfvR d x ->
+  (forall y, wfvR d y -> mvmulR C (mvmulR (transpR C) y) = mvmulR M y) ->
+  vsumsqR (mvmulR (@cfm_chol ROps C) x) = quadformR M x.
+Proof.
+  intros Hne HL HC Hx HM. unfold cfm_chol, quadform.
+  rewrite (transp_factor_form d C x Hne HL HC Hx), (HM x Hx). reflexivity.
 Qed.
